@@ -277,9 +277,11 @@ def run_golden(spec):
 
 RELEASE_CHILD = r"""
 import sys, json, hashlib
-sys.path = [p for p in sys.path if not p.startswith('/repo')]
+import os
+_repo = os.environ.get('VERIF_REPO', '/repo')
+sys.path = [p for p in sys.path if not p.startswith(_repo)]
 import execnet
-assert not execnet.__file__.startswith('/repo'), execnet.__file__
+assert not execnet.__file__.startswith(_repo), execnet.__file__
 sys.path.append('/verif')
 from vlib.values import canon
 out = {"version": execnet.__version__, "file": execnet.__file__, "items": []}
@@ -355,7 +357,8 @@ import random
 from vlib import values
 from ref import codec
 import execnet
-assert execnet.__file__.startswith('/repo/src'), execnet.__file__
+import os
+assert execnet.__file__.startswith(os.path.join(os.environ.get('VERIF_REPO', '/repo'), 'src')), execnet.__file__
 seed, n = json.load(sys.stdin)
 g = values.Gen(random.Random(seed), max_bytes=600, huge_ints=False)
 bad = []
@@ -386,7 +389,8 @@ def run_interp(spec):
     res = Result()
     n = 3000 if spec["tier"] == "quick" else 40000
     seed = core.case_seed("C12interp", spec["seed"])
-    env = {"PYTHONPATH": core.REPO_SRC, "PYTHONHASHSEED": "0", "PYTHONDONTWRITEBYTECODE": "1", "PATH": os.environ.get("PATH", "")}
+    env = {"PYTHONPATH": core.REPO_SRC, "PYTHONHASHSEED": "0", "PYTHONDONTWRITEBYTECODE": "1", "PATH": os.environ.get("PATH", ""),
+           "VERIF_REPO": core.REPO}
     outs = []
     for py in (spec["python"], core.PY):
         p = subprocess.run([py, "-S", "-c", INTERP_CHILD] if py != core.PY else [py, "-c", INTERP_CHILD],
